@@ -556,6 +556,23 @@ class FunctionTranslator:
             return self.call(e, env)
         if isinstance(e, ast.Dict):
             return self.dict_literal(e, env)
+        if isinstance(e, ast.JoinedStr):
+            # f"..{x}.." is the concatenation of its parts; {x} is str(x)
+            parts = []
+            for v in e.values:
+                if isinstance(v, ast.Constant) and type(v.value) is str:
+                    parts.append(self.strconst(v.value))
+                elif isinstance(v, ast.FormattedValue) and v.conversion in (-1, 115) and v.format_spec is None:
+                    call = ast.copy_location(ast.Call(ast.Name("str", ast.Load()), [v.value], []), v)
+                    parts.append(self.scalar(self.call(call, env), v))
+                else:
+                    self.fail(e, "unsupported f-string part")
+            if not parts:
+                return V(STR, self.strconst(""))
+            text = parts[0]
+            for t in parts[1:]:
+                text = "(%s ++ %s)" % (_paren(text), _paren(t))
+            return V(STR, text)
         if isinstance(e, ast.ListComp):
             return self.listcomp(e, env)
         self.fail(e, "unsupported expression (%s)" % type(e).__name__)
